@@ -479,7 +479,7 @@ PROPS = {
                             "evaluation once at package initialisation is Go's semantics of package-level variables, not modelled"]},
     "C14": {"theorems": ["C14_names_distinct", "C14_file_names_distinct", "C14_emitted_pass_names_fresh", "C14_invented_names_fresh", "C14_disambiguate_fresh", "C16_collision_order_independent"], "engines": [eng_prog, eng_multi, eng_layouts, eng_rename, eng_copydecls],
             "assumptions": ["identifiers are ASCII in the model; non-ASCII names are outside the generated corpus"]},
-    "C15": {"level_text": "Machine-checked proof in Coq 8.16.1 over an executable model tied to the code by a per-run correspondence; the copy is proved to be the identity for any complete table and the table is regenerated from copyAST each run; the renaming pass is modelled (Rename.v, tied by a hook that runs the real rewritePkgRefs) and proved never to capture; the qualification pass (package references) is exercised by the copy corpus and the layouts, not modelled (partial).", "theorems": ["C15_copy_identity", "C15_missing_field_is_lost", "C15_renaming_never_captures", "C15_layout_is_sections", "C15_copied_iff", "C15_copied_once", "C15_copied_in_source_order", "C15_nothing_emitted_twice"], "engines": [eng_copyprobe, eng_copydecls, eng_rename, eng_seq],
+    "C15": {"level_text": "Machine-checked proof in Coq 8.16.1 over an executable model tied to the code by a per-run correspondence; the copy is proved to be the identity for any complete table and the table is regenerated from copyAST each run; the renaming pass is modelled (Rename.v, tied by a hook that runs the real rewritePkgRefs) and proved never to capture; the qualification pass (package references) is exercised by the copy corpus and the layouts, not modelled (partial).", "theorems": ["C15_copy_identity", "C15_missing_field_is_lost", "C15_renaming_never_captures", "C15_layout_is_sections", "C15_copied_iff", "C15_copied_once", "C15_copied_in_source_order", "C15_nothing_emitted_twice"], "engines": [eng_copyprobe, eng_copydecls, eng_rename, eng_seq, eng_layouts],
             "assumptions": ["partial: the second (renaming) pass of rewritePkgRefs is modelled as a pass over the sequence of identifier occurrences (Rename.v, tied by the renameprobe hook); its first pass (package qualifiers) and Go's scoping of the copied declarations are exercised by the declaration corpus (structure + behaviour), not modelled",
                             "go/printer prints what copyAST returns; not modelled"]},
     "C16": {"level_text": "Machine-checked proof in Coq 8.16.1 over an executable model tied to the code by a per-run correspondence; order-independence of every map-driven decision of the model is proved; loader behaviour across layouts is sampled by byte-comparing runs (partial).", "theorems": ["C16_collision_order_independent", "C16_import_block_order_independent", "C16_vendor_prefix_stripped", "C16_unvendored_path_is_clean", "C10_analysis_order_independent", "C10_phase_order_independent", "C07_cycles_detected"], "engines": [eng_determinism, eng_paths],
